@@ -526,6 +526,7 @@ func (ex *Exec) violationNow(label, detail string) {
 	v := Violation{Label: label, Pos: detail, Unlisted: true}
 	v.Inputs, v.Kinds = ex.modelInputs(m)
 	v.Sched = ex.schedChoices()
+	v.Spawned = len(ex.gs) > 1
 	v.Trace = append([]Decision(nil), ex.ps.trace...)
 	v.Observes = append([]string(nil), ex.ps.observes...)
 	// known findings registered on the path
